@@ -2,7 +2,7 @@
 requires the ship fields, the players and the rules."""
 
 FAMILY = dict(
-    name="theship", nargs=2, gen="theship", retries=1, port=0, decode_property="C07", entry="theship",
+    send_units=3, name="theship", nargs=2, gen="theship", retries=1, port=0, decode_property="C07", entry="theship",
     describe=("The Ship: Valve A2S with app 2400 (mode/witnesses/duration in the info reply, deaths/money per player), all 32 "
               "EDF subsets, 0-40 players, 0-30 rules, 0-3 challenge rounds, single / Source split transports, foreign app ids "
               "(BadGame), port given / defaulted (theship_dp)"),
